@@ -41,6 +41,10 @@ def tname(td) -> str:
         return f"Disc({td.alias};" + "|".join(a.name for a in td.alts) + (";map" if td.mapping else "") + ")"
     if isinstance(td, S.Dyn):
         return f"Dyn({tname(td.t)};{td.conv.name})"
+    if isinstance(td, S.Spec):
+        return f"{td.obj.name}<{tname(td.arg)}>"
+    if isinstance(td, S.TVar):
+        return "T"
     return repr(td)
 
 
@@ -53,6 +57,7 @@ OPTION_SETS: Dict[str, dict] = {
     "exclude_all_off_unset": {"exclude_none": True, "exclude_defaults": True, "exclude_unset": False},
     "additional": {"additional_properties": True},
     "camel": {"aliaser": camel},
+    "camel+additional": {"aliaser": camel, "additional_properties": True},
     "camel+exclude_defaults": {"aliaser": camel, "exclude_defaults": True},
     "check_type": {"check_type": True},
     "check_type+fallback": {"check_type": True, "fall_back_on_any": True},
@@ -100,7 +105,7 @@ def mk_sopts(o: dict) -> S.SOpts:
 
 
 def has_obj(td) -> bool:
-    if isinstance(td, (M.Obj, M.Ref, M.Disc, M.AnyT)):
+    if isinstance(td, (M.Obj, M.Ref, M.Disc, M.AnyT, S.Spec)):
         return True
     if isinstance(td, S.Dyn):
         return has_obj(td.t) or has_obj(td.conv.target)
@@ -265,7 +270,7 @@ def run(report, tier: str, seed: int, log_name: str = "serialize_vs_reference"):
                     fail("method-mismatch", v, f"serialization_method(...)(v) gives {got2[1]!r} but serialize gives {r!r}", got2[1], r)
                 # serialize(v) without a type, for instances of non-generic classes
                 cls = type(v)
-                if not isinstance(td, S.Dyn) and (cls in (bool, int, float, str, type(None)) or realm.built.get(cls.__name__) is cls) and "check_type" not in o:
+                if not isinstance(td, S.Dyn) and (cls in (bool, int, float, str, type(None)) or (realm.built.get(cls.__name__) is cls and not getattr(realm.descs.get(cls.__name__), "generic", False))) and "check_type" not in o:
                     o2 = {k: x for k, x in o.items() if k != "fall_back_on_any"}
                     try:
                         untyped = ("ok", serialize(v, **o2))
